@@ -76,6 +76,20 @@ def run_case(ctx, fam, M, k, sel, dtype, tag="rand"):
     hyps2 = [(h.transcript, float(h.vis_sc)) for h in boh2]
     ctx.check(sorted(hyps2) == sorted(hyps), "result_depends_on_decoder_history",
               lambda: "fresh decoder %r, decoder used for earlier inputs %r; " % (sorted(hyps), sorted(hyps2)) + desc())
+    # the bag handed back for a line stays what it is while the same decoder decodes the next line (page decoding keeps the
+    # bags of all lines), also when that next line is rejected as un-normalised
+    with np.errstate(all="ignore"):
+        ctx.must("decoder_raises", _LONG_LIVED[key], np.roll(logits, 1, axis=0).copy())
+        try:
+            _LONG_LIVED[key](logits + 0.5)
+        except ValueError:
+            pass
+        boh3 = ctx.must("decoder_raises", _LONG_LIVED[key], logits.copy())
+    hyps2_later = [(h.transcript, float(h.vis_sc)) for h in boh2]
+    ctx.check(hyps2_later == hyps2, "earlier_bag_changed_by_a_later_call", lambda: "was %r, is %r; " % (hyps2, hyps2_later) + desc())
+    hyps3 = [(h.transcript, float(h.vis_sc)) for h in boh3]
+    ctx.check(sorted(hyps3) == sorted(hyps), "result_depends_on_decoder_history",
+              lambda: "fresh decoder %r, the same decoder after another line and a rejected line %r; " % (sorted(hyps), sorted(hyps3)) + desc())
     ctx.event("family:" + fam)
     ctx.event("selector:" + sel)
     ctx.event("k:%d" % k)
